@@ -344,6 +344,14 @@ func checkHistory(h history) *rp.Fail {
 				}
 			}
 			if res.Err == nil && !res.Nil && res.Rec != nil && len(sends) == 1 {
+				if v := reflect.ValueOf(res.Value); s.J%2 == 0 && v.Kind() == reflect.Ptr && !v.IsNil() && v.Elem().Kind() == reflect.Struct {
+					// the application keeps the RECORD (`d := *device`), not the pointer it was handed: the pointer becomes garbage - the
+					// record's addresses, maps and dates are still the application's
+					cp := reflect.New(v.Elem().Type())
+					cp.Elem().Set(v.Elem())
+					res.Value = cp.Interface()
+					ev.Class("results/kept-as-a-copy-of-the-struct", 1)
+				}
 				results = append(results, held{res, res.Rec.String(), fmt.Sprintf("%s (step %d)", cs.Call.Op, n)})
 			}
 		case "scribble":
@@ -770,6 +778,7 @@ func genHistory(t *rapid.T) history {
 func props() []rp.Prop {
 	return []rp.Prop{
 		rp.P[history]{Name: "history", Checks: ev.Pick(6000, 400000) / ev.Shards(), Gen: genHistory, Check: checkHistory},
+		rp.P[rebuildCase]{Name: "client-rebuilt-from-the-same-list", Checks: ev.Pick(2000, 200000) / ev.Shards(), Gen: genRebuild, Check: checkRebuild},
 		rp.P[overlapCase]{Name: "overlapping-discoveries", Checks: ev.Pick(60, 6000) / ev.Shards(), Gen: genOverlap, Check: checkOverlap},
 		rp.P[sliceCase]{Name: "slice-arguments", Checks: ev.Pick(4000, 400000) / ev.Shards(), Gen: genSlices, Check: checkSlices},
 	}
